@@ -9,7 +9,7 @@ from rv.util import B, build_operand, exc_matches, rb
 OPS = ['append', 'iadd', 'prepend', 'insert', 'overwrite', 'delitem', 'setitem_bits', 'setitem_int',
        'reverse', 'rol', 'ror', 'set', 'invert', 'ilshift', 'irshift', 'imul', 'iand', 'ior', 'ixor',
        'clear', 'replace', 'byteswap']
-OPERAND_KINDS = ['Bits', 'BitArray', 'ConstBitStream', 'BitStream', 'str', 'str', 'bytes', 'list', 'bitarray', 'tuple', 'truthy-iter']
+OPERAND_KINDS = ['Bits', 'BitArray', 'ConstBitStream', 'BitStream', 'str', 'str', 'bytes', 'list', 'bitarray', 'tuple', 'truthy-iter'] * 3 + ['failing-iter']
 
 
 # ---- JSON <-> python for keys / position iterables -------------------------------------------
@@ -238,6 +238,10 @@ def model_args(m, op, a):
     return tuple(a)
 
 
+def uses_failing(a):
+    return any(isinstance(x, list) and x and x[0] == 'failing-iter' for x in a)
+
+
 def uses_self(a):
     return any(isinstance(x, list) and x and x[0] == 'self' for x in a)
 
@@ -310,6 +314,11 @@ def judge_step(ctx, prop, s, m, op, a, case, lsb0=False, extra_key='', retained=
         exp = None
     except M.Expect as ex:
         exp = ex
+        nm, ret = m, None
+    if any(isinstance(x, list) and x and x[0] == 'failing-iter' for x in a) and not (op == 'replace' and a[4] == 0):   # replace(count=0) reads nothing
+        # an operand that fails while it is being read: the caller's exception (or the documented one for another bad argument)
+        # comes out and the receiver is what it was
+        exp = M.Expect((exp.classes if exp is not None and not exp.anything else ()) + ('OperandFailure',))
         nm, ret = m, None
     ic = input_class(m, op, a, ma, lsb0)
     kind, got = util.call(lambda: do(s, op, a, retained))
